@@ -15,8 +15,8 @@ ASSUMPTIONS = [
     "the DFS mirror (Solvor/Cp/Prop.lean) tries values in ascending order; CPython's set iteration order is "
     "not modelled, so nothing that depends on it is compared (no R_trace for DFS; solution *sets* only)",
     "unnamed variables (int_var without a name, hidden from results) are generated; for them the returned values "
-    "must extend to a solution (verified enumerator); empty domains (lb > ub) are outside the generator "
-    "(excluded region: the encoder drops such a variable, the DFS raises StopIteration)",
+    "must extend to a solution (verified enumerator); empty domains (lb > ub) are generated (the model then has "
+    "no solution); the theorems about the encoder/DFS carry the hypothesis lb <= ub, the check does not",
     "hints are hard restrictions in the code (domain cut / SAT assumptions); INFEASIBLE is judged against the "
     "solutions compatible with the in-domain hints (DESIGN §4 C05: 'hints only restrict')",
     "failures caused purely by solve_sat (a returned assignment that is not a model of the captured CNF, "
@@ -61,6 +61,8 @@ def edge_cases():
         ([[1, 5]], [["circuit", []]]),
         ([[0, 2], [0, 2]], []),
         ([[0, 1]], [["!=", V(0), C(0)]]),
+        ([[3, 2], [0, 1]], []),  # empty domain
+        ([[3, 2], [0, 1]], [["!=", V(1), C(0)]]),
     ]
     for vars_, cons in ms:
         for solver in ("auto", "dfs", "sat"):
@@ -223,6 +225,17 @@ def run(ctx, budget):
     # batches bound the memory of a thorough run; every batch is generated from ctx.rng only
     for _ in range(5 * budget):
         run_cases(ctx, gen_cases(ctx.rng, 1000, big=(ctx.tier == "thorough")))
+    summarise(ctx)
+
+
+def summarise(ctx):
+    """Aggregate the (kind:shape | solver) table to (kind | solver) for a quick look."""
+    agg = {}
+    for k, v in ctx.cov.get("coverage_table", {}).items():
+        tag, sv = k.split("|")
+        kind = ":".join(tag.split(":")[:2]) if tag.startswith("rel") else tag.split(":")[0]
+        agg[f"{kind}|{sv}"] = agg.get(f"{kind}|{sv}", 0) + v
+    ctx.cov["coverage_kinds"] = dict(sorted(agg.items()))
 
 
 def replay(ctx, body):
